@@ -424,7 +424,7 @@ def roots_for(tier, seed):
 
 
 def run(tier, seed):
-    depth = 4 if tier == "quick" else 6
+    depth = 5 if tier == "quick" else 6
     depth = int(os.environ.get("VERIF_C25_DEPTH", depth))
     roots = [[["cfg", cfg]] for cfg in roots_for(tier, seed)]
     res = L.level_bfs(expand, roots, depth)
